@@ -37,7 +37,10 @@ HEDGES: dict[str, dict] = {
     "Very": {"cases": [(None, "x ** 2")], "fix": {0: 0, 1: 1}, "direction": 1},
 }
 INVERSES = [("Very", "Somewhat"), ("Somewhat", "Very"), ("Extremely", "Seldom"), ("Seldom", "Extremely"), ("Not", "Not")]
-GRID = [Fraction(0), Fraction(1, 8), Fraction(1, 4), Fraction(3, 8), Fraction(1, 2), Fraction(5, 8), Fraction(3, 4), Fraction(7, 8), Fraction(1)]
+# witnesses: the eighths, and points closer to 0, 1/2 and 1 than the library's comparison tolerance (so that a tolerance comparison in a kernel
+# - np.isclose / Op.is_close, modelled as |a - b| <= atol - has an order type of its own on each side of the exact comparison)
+GRID = [Fraction(0), Fraction(1, 4096), Fraction(1, 8), Fraction(1, 4), Fraction(3, 8), Fraction(2047, 4096), Fraction(1, 2), Fraction(2049, 4096), Fraction(5, 8), Fraction(3, 4),
+        Fraction(7, 8), Fraction(4095, 4096), Fraction(1)]
 PINS = {("const", 0): Fraction(0), ("const", 0.5): Fraction(1, 2), ("const", 1): Fraction(1)}
 
 
